@@ -359,6 +359,152 @@ var propParallel = stats.ParallelProp(R, "parallel", gen1, check, 4)
 
 func TestParallel(t *testing.T) { rapid.Check(t, propParallel) }
 
+// Siblings: a short history of messages decoded one after the other in the same process, each differing
+// from its predecessor in one field (often by one unit or one bit) or repeating it exactly.  Every decode
+// must give that message's own fields, whatever was decoded before.
+type SibCase struct {
+	Cases []Case `json:"messages"`
+}
+
+func checkSiblings(c SibCase, o *stats.Obs) error {
+	for i, cs := range c.Cases {
+		oo := &stats.Obs{}
+		if err := check(cs, oo); err != nil {
+			o.Key = "history/" + oo.Key
+			return fmt.Errorf("message %d of a history of %d (each differs from the one before in one field): %v", i, len(c.Cases), err)
+		}
+	}
+	o.NonTrivial = len(c.Cases) >= 2
+	o.Class(fmt.Sprintf("history-%d", len(c.Cases)))
+	return nil
+}
+
+func cloneMSM(m enc.MSM) enc.MSM {
+	m.CellMask = append([]bool(nil), m.CellMask...)
+	m.Sats = append([]enc.SatCell(nil), m.Sats...)
+	m.Sigs = append([]enc.SigCell(nil), m.Sigs...)
+	return m
+}
+
+// bump changes v by one unit or one low bit inside [0, 2^width).
+func bump(t *rapid.T, v uint, width int, label string) uint {
+	max := uint(1)<<uint(width) - 1
+	n := v ^ (1 << uint(rapid.IntRange(0, width-1).Draw(t, label+"Bit")))
+	if rapid.Bool().Draw(t, label+"PlusOne") {
+		n = v + 1
+	}
+	if n > max {
+		n = v - 1
+	}
+	return n
+}
+
+func bumpS(t *rapid.T, v int64, width int, label string) int64 {
+	max := int64(1)<<uint(width-1) - 1
+	n := v + int64(rapid.SampledFrom([]int{-1, 1, 2, -256, 256}).Draw(t, label+"Delta"))
+	if n > max || n < -max-1 {
+		n = v - v/2
+		if n == v {
+			n = 0
+		}
+	}
+	return n
+}
+
+func genSiblings(t *rapid.T) SibCase {
+	m, shape := gen.MSM(t, "", 400)
+	c := SibCase{Cases: []Case{{Msg: m, Shape: shape, Debug: rapid.Bool().Draw(t, "debug")}}}
+	n := rapid.IntRange(1, 4).Draw(t, "nSiblings")
+	for i := 0; i < n; i++ {
+		s := c.Cases[len(c.Cases)-1]
+		s.Msg = cloneMSM(s.Msg)
+		b := &s.Msg
+		msm7 := b.IsMSM7()
+		fields := []string{"timestamp", "timestamp", "station", "iods", "session", "clock", "smoothing", "repeat", "debug", "family"}
+		if len(b.Sats) > 0 {
+			fields = append(fields, "sat", "sat")
+		}
+		if len(b.Sigs) > 0 {
+			fields = append(fields, "sig", "sig", "sig", "last-sig")
+		}
+		switch rapid.SampledFrom(fields).Draw(t, "field") {
+		case "timestamp":
+			b.Timestamp = bump(t, b.Timestamp, 30, "timestamp")
+		case "station":
+			b.StationID = bump(t, b.StationID, 12, "station")
+		case "iods":
+			b.IODS = bump(t, b.IODS, 3, "iods")
+		case "session":
+			b.SessionTime = bump(t, b.SessionTime, 7, "session")
+		case "clock":
+			b.ClockSteer = bump(t, b.ClockSteer, 2, "clock")
+		case "smoothing":
+			b.SmoothingInt = bump(t, b.SmoothingInt, 3, "smoothing")
+			b.DivFree = !b.DivFree
+		case "debug":
+			s.Debug = !s.Debug
+		case "family":
+			// the same field values in the sister constellation's message of the same MSM kind
+			b.Type = rapid.SampledFrom([]int{1070, 1080, 1090, 1110, 1120}).Draw(t, "family") + b.Type%10
+		case "sat":
+			k := rapid.IntRange(0, len(b.Sats)-1).Draw(t, "satIndex")
+			switch rapid.IntRange(0, 2).Draw(t, "satField") {
+			case 0:
+				b.Sats[k].Whole = bump(t, b.Sats[k].Whole, 8, "whole")
+			case 1:
+				b.Sats[k].Frac = bump(t, b.Sats[k].Frac, 10, "frac")
+			default:
+				if msm7 {
+					b.Sats[k].RangeRate = bumpS(t, b.Sats[k].RangeRate, 14, "rate")
+					b.Sats[k].ExtInfo = bump(t, b.Sats[k].ExtInfo, 4, "ext")
+				} else {
+					b.Sats[k].Frac = bump(t, b.Sats[k].Frac, 10, "frac")
+				}
+			}
+		case "sig", "last-sig":
+			k := len(b.Sigs) - 1
+			if len(b.Sigs) > 1 && rapid.Bool().Draw(t, "anySig") {
+				k = rapid.IntRange(0, len(b.Sigs)-1).Draw(t, "sigIndex")
+			}
+			rdW, pdW, lockW, cnrW := 15, 22, 4, 6
+			if msm7 {
+				rdW, pdW, lockW, cnrW = 20, 24, 10, 10
+			}
+			switch rapid.IntRange(0, 5).Draw(t, "sigField") {
+			case 0:
+				b.Sigs[k].RangeDelta = bumpS(t, b.Sigs[k].RangeDelta, rdW, "rd")
+			case 1:
+				b.Sigs[k].PhaseDelta = bumpS(t, b.Sigs[k].PhaseDelta, pdW, "pd")
+			case 2:
+				b.Sigs[k].Lock = bump(t, b.Sigs[k].Lock, lockW, "lock")
+			case 3:
+				b.Sigs[k].HalfCycle = !b.Sigs[k].HalfCycle
+			case 4:
+				b.Sigs[k].CNR = bump(t, b.Sigs[k].CNR, cnrW, "cnr")
+			default:
+				if msm7 {
+					b.Sigs[k].RateDelta = bumpS(t, b.Sigs[k].RateDelta, 15, "rrd")
+				} else {
+					b.Sigs[k].CNR = bump(t, b.Sigs[k].CNR, cnrW, "cnr")
+				}
+			}
+		}
+		// keep the timestamp one the generator of single messages could have drawn
+		if b.Type/10 == 108 {
+			day, ms := b.Timestamp>>27, b.Timestamp&(1<<27-1)
+			b.Timestamp = (day%7)<<27 | ms%(24*3600*1000)
+		} else {
+			b.Timestamp %= 7 * 24 * 3600 * 1000
+		}
+		c.Cases = append(c.Cases, s)
+	}
+	return c
+}
+
+var propSiblings = stats.Prop(R, "siblings", genSiblings, checkSiblings)
+
+func TestSiblings(t *testing.T) { rapid.Check(t, propSiblings) }
+
 func TestReplay(t *testing.T) { R.Replay(t) }
 
 // FuzzMessage runs the same property under Go's coverage-guided fuzzer (the
